@@ -306,3 +306,81 @@ pub fn cross_process_check(cx: &mut crate::mc::CaseCx, prop: &str, which: &str) 
     cx.count("cross_process_ok", 1);
   }
 }
+
+// ---------------------------------------------------------------- aborts (stack exhaustion, allocation failure)
+
+pub const BIG_INPUTS: [&str; 9] = ["report+empty-chunks", "report+zeros", "share+zeros", "adss-share+zeros", "nested-chunks", "group-many-lines", "group-one-long-line", "json-deep", "pk-many-entries"];
+
+/// `verif probe big <kind>`: feeds one LARGE, well-formed-looking input to a decoder on an ordinary 2 MiB thread
+/// (as a server worker would). The process must exit normally whatever the decoder answers; the parent treats
+/// death by signal (stack overflow abort, allocation failure abort) as the violation.
+pub fn main_big(kind: &str) {
+  let kind = kind.to_string();
+  let h = std::thread::spawn(move || {
+    getrandom::verif::reset(0xB16);
+    let mg = MessageGenerator::new(SingleMeasurement::new(b"big"), 2, b"e");
+    let mut r = [0u8; 32];
+    mg.sample_local_randomness(&mut r);
+    let report = sta_rs::Message::generate(&mg, &r, None).map(|m| m.to_bytes()).unwrap_or_default();
+    let share = mg.share_with_local_randomness().map(|w| w.share.to_bytes()).unwrap_or_default();
+    let zeros = vec![0u8; 8 << 20];
+    let answered: bool = match kind.as_str() {
+      "report+empty-chunks" | "report+zeros" => sta_rs::Message::from_bytes(&[&report[..], &zeros[..]].concat()).is_some(),
+      "share+zeros" => sta_rs::Share::from_bytes(&[&share[..], &zeros[..]].concat()).is_some(),
+      "adss-share+zeros" => adss::Share::from_bytes(&[&share[..], &zeros[..]].concat()).is_some(),
+      "nested-chunks" => {
+        // a chunk whose body is a chunk whose body is a chunk ... 200000 levels
+        let mut b: Vec<u8> = vec![];
+        for _ in 0..200_000 {
+          let mut n = (b.len() as u32).to_le_bytes().to_vec();
+          n.extend_from_slice(&b);
+          b = n;
+          if b.len() > (4 << 20) {
+            break;
+          }
+        }
+        sta_rs::Message::from_bytes(&b).is_some() | adss::Share::from_bytes(&b).is_some()
+      }
+      "group-many-lines" => {
+        use base64::{engine::Engine as _, prelude::BASE64_STANDARD};
+        let line = BASE64_STANDARD.encode(&share);
+        let joined = vec![line; 20_000].join("\n");
+        star_wasm::group_shares(&joined, "e").is_some()
+      }
+      "group-one-long-line" => star_wasm::group_shares(&"A".repeat(16 << 20), "e").is_some(),
+      "json-deep" => {
+        let deep = format!("{}{}", "[".repeat(300_000), "]".repeat(300_000));
+        serde_json::from_str::<pp::Evaluation>(&deep).is_ok() | serde_json::from_str::<pp::Point>(&format!("{{\"output\":{}}}", deep)).is_ok()
+      }
+      _ => {
+        // a public key whose entry count claims 2^40 entries (below the size limit in bytes)
+        let mut b = vec![0u8; 32];
+        b.extend_from_slice(&(1u64 << 40).to_le_bytes());
+        b.extend_from_slice(&vec![0u8; 4000]);
+        pp::ServerPublicKey::load_from_bincode(&b).is_ok() | pp::ProofDLEQ::load_from_bincode(&b).is_ok()
+      }
+    };
+    println!("answered {}", answered);
+  });
+  match h.join() {
+    Ok(()) => {}
+    Err(_) => println!("panicked"),
+  }
+}
+
+/// parent side: (kind, Ok(stdout) | Err(description of abnormal termination))
+pub fn big_input_runs() -> Result<Vec<(String, Result<String, String>)>, String> {
+  let exe = std::env::current_exe().map_err(|e| e.to_string())?;
+  let mut v = vec![];
+  for kind in BIG_INPUTS {
+    let o = std::process::Command::new(&exe).arg("probe").arg("big").arg(kind).output().map_err(|e| e.to_string())?;
+    let out = String::from_utf8_lossy(&o.stdout).trim().to_string();
+    if o.status.success() {
+      v.push((kind.to_string(), Ok(out)));
+    } else {
+      let err = String::from_utf8_lossy(&o.stderr);
+      v.push((kind.to_string(), Err(format!("{:?}; last stderr line: {}", o.status, err.lines().last().unwrap_or("").chars().take(160).collect::<String>()))));
+    }
+  }
+  Ok(v)
+}
